@@ -768,8 +768,8 @@ func (w *World) envOptions() []envOpt {
 		} else {
 			id := w.stallNode
 			o := envOpt{label: fmt.Sprintf("stalled write of n%d completes", id), cost: 1, do: func() { w.stallNode = -1 }}
-			if w.events-w.stallAt >= stallEvents {
-				addDef(o)
+			if w.events-w.stallAt >= stallEvents || w.noDevs || w.timedNow {
+				addDef(o) // (when the faults stop, a stalled write completes at once)
 			} else if (w.events-w.stallAt)%10 == 5 {
 				alts = append(alts, o) // an earlier completion is a further deviation (offered every tenth event)
 			}
